@@ -8,12 +8,24 @@ import (
 	"math/rand"
 	"sort"
 	"strconv"
+	"strings"
 )
 
 // Bundle is an abstract bundle: docId -> tree, plus where each document lives (relative to the case directory).
 type Bundle struct {
 	Docs  map[string]*Node  `json:"docs"`
 	Files map[string]string `json:"files"` // docId -> path relative to the case dir
+	Feat  Features          `json:"feat"`
+}
+
+// Features of a generated bundle that decide membership in W for an option set.
+type Features struct {
+	NAux      int  `json:"naux"`
+	Anon      bool `json:"anon"`      // holds an anonymous pointer into a root definition
+	SharedPtr bool `json:"sharedPtr"` // holds a pointer into the schema of a shared parameter/response
+	Collision bool `json:"collision"` // an auxiliary definition collides by name with a root definition
+	WPlus     bool `json:"wplus"`     // contains constructs outside W
+	NonPlain  bool `json:"nonPlain"`  // some name needs escaping
 }
 
 type GenOpts struct {
@@ -462,6 +474,7 @@ func (g *Gen) GenBundle() *Bundle {
 				if !contains(g.defs[id], p) {
 					g.defs[id] = append(g.defs[id], p)
 					refFree[id][p] = true
+					b.Feat.Collision = true
 				}
 				continue
 			}
@@ -586,9 +599,11 @@ func (g *Gen) GenBundle() *Bundle {
 	// pick for operations: definitions, anonymous pointers, pointers into shared objects
 	opPick := func() *Node {
 		if g.o.AnonPointers && len(anonTargets) > 0 && g.r.Intn(4) == 0 {
+			b.Feat.Anon = true
 			return refNode(anonTargets[g.r.Intn(len(anonTargets))]...)
 		}
 		if g.o.SharedPtrs && len(sharedPtrTargets) > 0 && g.r.Intn(5) == 0 {
+			b.Feat.SharedPtr = true
 			return refNode(sharedPtrTargets[g.r.Intn(len(sharedPtrTargets))]...)
 		}
 		return rootPick()
@@ -639,7 +654,38 @@ func (g *Gen) GenBundle() *Bundle {
 		paths.Ch[g.newPath()] = pi
 	}
 	root.Ch["paths"] = paths
+	// anonymous pointers held inside OTHER root definitions (replace a primitive leaf)
+	if g.o.AnonPointers && len(anonTargets) > 0 {
+		for _, dn := range g.defs["root"] {
+			if g.r.Intn(4) != 0 {
+				continue
+			}
+			t := anonTargets[g.r.Intn(len(anonTargets))]
+			if t[2] == dn {
+				continue
+			}
+			var leaves [][]string
+			defs.Ch[dn].Walk([]string{}, func(p []string, n *Node) {
+				if len(p) > 0 && len(n.Ch) == 0 && n.Ref() == nil && n.At["type"] != nil && p[len(p)-1] != "properties" {
+					leaves = append(leaves, p)
+				}
+			})
+			if len(leaves) == 0 {
+				continue
+			}
+			lp := leaves[g.r.Intn(len(leaves))]
+			defs.Ch[dn].Set(lp, refNode(t...))
+			b.Feat.Anon = true
+		}
+	}
 	b.Docs["root"] = root
+	breakPureRefCycles(b)
+	b.Feat.NAux = len(auxIDs)
+	for _, c := range g.Names.ToConcrete {
+		if !safeKeyRe.MatchString(c) && !strings.HasPrefix(c, "/") {
+			b.Feat.NonPlain = true
+		}
+	}
 	return b
 }
 
@@ -696,4 +742,52 @@ func contains(xs []string, x string) bool {
 		}
 	}
 	return false
+}
+
+// breakPureRefCycles: a chain of nodes that are nothing but $refs and never lands on a schema does not resolve
+// (outside W); replace one link of every such chain by a primitive.
+func breakPureRefCycles(b *Bundle) {
+	nodeAt := func(ref []string) *Node {
+		d := b.Docs[ref[0]]
+		if d == nil {
+			return nil
+		}
+		return d.Get(ref[1:])
+	}
+	for changed := true; changed; {
+		changed = false
+		for _, id := range sortedKeys(b.Docs) {
+			b.Docs[id].Walk(nil, func(_ []string, n *Node) {
+				r := n.Ref()
+				if r == nil || changed {
+					return
+				}
+				cur := n
+				for steps := 0; steps < 70; steps++ {
+					rr := cur.Ref()
+					if rr == nil {
+						return
+					}
+					nx := nodeAt(rr)
+					if nx == nil {
+						return
+					}
+					cur = nx
+				}
+				// never landed: break the chain here
+				delete(n.At, "$ref")
+				n.At["type"] = "string"
+				changed = true
+			})
+		}
+	}
+}
+
+func sortedKeys(m map[string]*Node) []string {
+	out := make([]string, 0, len(m))
+	for k := range m {
+		out = append(out, k)
+	}
+	sort.Strings(out)
+	return out
 }
